@@ -57,6 +57,15 @@ theorem rerun_idempotent (owns : Name → Bool) (emit emit' fs : FS) (he : ∀ f
     ownedPart owns (runPlugin owns emit (runPlugin owns emit' fs)) = emit :=
   owned_indep_history owns emit _ he
 
+/-- A generation inside an interpreter reads and may update interpreter-level state (module-level containers, memo tables,
+    mutable defaults).  If no generation changes that state — what the scan obligation establishes: no such site exists apart from
+    the accounted constants — then the output for a model does not depend on which models were generated before it in the process. -/
+theorem stateless_history_independent {σ M O : Type} (g : σ → M → O × σ) (h : ∀ s m, (g s m).2 = s) (s : σ) (ms : List M) (m : M) :
+    (g (ms.foldl (fun s m' => (g s m').2) s) m).1 = (g s m).1 := by
+  induction ms generalizing s with
+  | nil => rfl
+  | cons a as ih => simp only [List.foldl, h s a]; exact ih s
+
 /-- Every nondeterminism site of generator/ that the design accounts for:
     (file, enclosing function, kind, how it is neutralised). -/
 def accounted : List (Name × Name × Name × Name) := [
@@ -82,7 +91,10 @@ def accounted : List (Name × Name × Name × Name) := [
   -- directory listings: order-irrelevant deletion / one distinct target per listed file
   (n!"generator/plugins/testdata/testdata_utils.py", n!"cleanup", n!"dirlist", n!"loop-deletes-each"),
   (n!"generator/plugins/dotnet/dotnet_utils.py", n!"cleanup", n!"dirlist", n!"loop-deletes-each"),
-  (n!"generator/plugins/dotnet/dotnet_utils.py", n!"copy_custom_classes", n!"dirlist", n!"loop-writes-distinct-file-each")
+  (n!"generator/plugins/dotnet/dotnet_utils.py", n!"copy_custom_classes", n!"dirlist", n!"loop-writes-distinct-file-each"),
+  -- interpreter-level state (kinds module-state, module-object, memo-decorator, mutable-default): the one module-level object that is
+  -- not a compiled regex / logger / frozenset is a constant structure appended to the model of each generation; nothing mutates it
+  (n!"generator/plugins/testdata/testdata_generator.py", n!"<module>", n!"module-object", n!"model.Structure")
 ]
 
 /-- ways of consuming a hash-ordered container whose result cannot depend on the iteration order, wherever they occur -/
